@@ -278,6 +278,7 @@ type locTarget struct {
 	sort  string
 	key   string // ref / aid / map ref; "" for scalar globals
 	whole bool   // entire heap array may change
+	cond  string // non-empty: the cell may change only if cond holds (dynamic-type guard)
 	freshOnly bool // with whole: only cells of objects allocated after this point change
 }
 
@@ -501,6 +502,45 @@ func (vc *VC) evalLoc(e *SpecEnv, x ast.Expr, whole bool) (res []locTarget) {
 			}
 			return out
 		}
+		if id, ok := x.Fun.(*ast.Ident); ok && id.Name == "govcAllFields" {
+			p := e.eval(x.Args[0])
+			pt := p.T.Underlying().(*types.Pointer)
+			d := &PtrDesc{Root: rObj, Ref: p.L[0], RootT: pt.Elem(), T: pt.Elem()}
+			return vc.descTargets(d)
+		}
+		if id, ok := x.Fun.(*ast.Ident); ok && id.Name == "govcIfaceObj" {
+			v := e.eval(x.Args[0])
+			it, ok := e.typeOf(x.Args[0]).Underlying().(*types.Interface)
+			if !ok {
+				e.fail(x, "ifaceobj of non-interface")
+			}
+			var out []locTarget
+			scope := e.pkg.Types.Scope()
+			for _, n := range scope.Names() {
+				tn, ok := scope.Lookup(n).(*types.TypeName)
+				if !ok {
+					continue
+				}
+				if _, isStruct := tn.Type().Underlying().(*types.Struct); !isStruct {
+					continue
+				}
+				if !types.Implements(types.NewPointer(tn.Type()), it) {
+					continue
+				}
+				// implementers that opt out of the interface (nosubtype) are excluded; the
+				// interface contract's precondition must rule them out as dynamic types
+				if vc.w.optedOut(types.NewPointer(tn.Type()), it) {
+					continue
+				}
+				d := &PtrDesc{Root: rObj, Ref: v.L[1], RootT: tn.Type(), T: tn.Type()}
+				guard := eq(v.L[0], bvLit(64, uint64(vc.w.tags.tag(types.NewPointer(tn.Type())))))
+				for _, t := range vc.descTargets(d) {
+					t.cond = guard
+					out = append(out, t)
+				}
+			}
+			return out
+		}
 		if id, ok := x.Fun.(*ast.Ident); ok && id.Name == "govcOld" {
 			return vc.evalLoc(e.inOld(), x.Args[0], whole)
 		}
@@ -635,19 +675,28 @@ func (vc *VC) havocTargets(st *State, ts []locTarget) {
 				q, indexSortOf(srt), and(conds...), f, q, old, q, f, q))
 			st.heap.m[n] = f
 			vc.heapSort[n] = srt
+			for _, t := range keyed {
+				vc.heapMods[n] = append(vc.heapMods[n], heapMod{key: t.key, cond: t.cond})
+			}
 			continue
 		}
 		if whole {
 			st.heap.m[n] = vc.freshConst("hv", srt)
 			vc.heapSort[n] = srt
+			vc.untracked[n] = true
 			continue
 		}
 		h := vc.heapTerm(st, n, srt)
 		f := vc.freshConst("hv", srt)
 		for _, t := range byName[n] {
-			h = sto(h, t.key, sel(f, t.key))
+			if t.cond != "" {
+				h = sto(h, t.key, ite(t.cond, sel(f, t.key), sel(h, t.key)))
+			} else {
+				h = sto(h, t.key, sel(f, t.key))
+			}
+			vc.heapMods[n] = append(vc.heapMods[n], heapMod{key: t.key, cond: t.cond})
 		}
-		vc.setHeap(st, n, srt, h)
+		vc.setHeapTracked(st, n, srt, h)
 	}
 }
 
@@ -1228,4 +1277,24 @@ func rootIsLocalAlloc(v ssa.Value) bool {
 			return false
 		}
 	}
+}
+
+// optedOut: every method of the interface implemented by T has a contract marked nosubtype.
+func (w *World) optedOut(T types.Type, it *types.Interface) bool {
+	for i := 0; i < it.NumMethods(); i++ {
+		m := it.Method(i)
+		sel := w.Prog.MethodSets.MethodSet(T).Lookup(m.Pkg(), m.Name())
+		if sel == nil {
+			return false
+		}
+		fn := w.Prog.MethodValue(sel)
+		if fn == nil {
+			return false
+		}
+		c, ok := w.Contracts[fn.String()]
+		if !ok || !c.Raw.NoSubtype {
+			return false
+		}
+	}
+	return it.NumMethods() > 0
 }
